@@ -981,6 +981,10 @@ def _register_capabilities_hooks(converter: cattrs.Converter) -> cattrs.Converte
             _location_hook,
         ),
         (
+            Union[lsp_types.Location, Sequence[lsp_types.Location]],
+            _location_hook,
+        ),
+        (
             Optional[
                 Union[
                     Sequence[lsp_types.SymbolInformation],
@@ -1022,6 +1026,10 @@ def _register_capabilities_hooks(converter: cattrs.Converter) -> cattrs.Converte
         ),
         (
             Optional[Union[str, lsp_types.MarkupContent]],
+            _markup_content_hook,
+        ),
+        (
+            Union[str, lsp_types.MarkedStringWithLanguage],
             _markup_content_hook,
         ),
         (
@@ -1260,6 +1268,14 @@ def _register_required_structure_hooks(
         (lsp_types.DocumentFilter, _text_document_filter_hook),
         (
             Union[
+                lsp_types.TextDocumentFilterLanguage,
+                lsp_types.TextDocumentFilterScheme,
+                lsp_types.TextDocumentFilterPattern,
+            ],
+            _text_document_filter_hook,
+        ),
+        (
+            Union[
                 str,
                 lsp_types.NotebookDocumentFilterNotebookType,
                 lsp_types.NotebookDocumentFilterScheme,
@@ -1268,6 +1284,14 @@ def _register_required_structure_hooks(
             _notebook_filter_hook,
         ),
         (NotebookSelectorItem, _notebook_filter_hook),
+        (
+            Union[
+                lsp_types.NotebookDocumentFilterNotebookType,
+                lsp_types.NotebookDocumentFilterScheme,
+                lsp_types.NotebookDocumentFilterPattern,
+            ],
+            _notebook_filter_hook,
+        ),
         (Optional[NotebookSelectorItem], _notebook_filter_hook),
         (Optional[Union[str, Sequence[str]]], _string_or_string_list_hook),
         (
